@@ -81,7 +81,7 @@ def gen_script(rng, max_gates=24, max_in=6, max_ff=3, p_glitchy=0.2, style=None,
     rng.shuffle(outs)
     fmode = [rng.choice([0, 0, 1, 1, 2, 3]) for _ in range(rng.randint(1, 8))]
     return {'style': style, 'n_in': n_in, 'floating': n_fl, 'ffs': ffs, 'gates': gates, 'outs': outs, 'fmode': fmode,
-            'io_mix': rng.random() < 0.3}
+            'io_mix': rng.random() < 0.3, 'fork_rev': rng.random() < 0.25, 'node_shuffle': rng.randrange(1, 1 << 16) if rng.random() < 0.25 else 0}
 
 
 class Built:
@@ -189,9 +189,10 @@ def build(script):
         if len(rd) == 1 and mode == 0:
             Line(c, (pn, ppin), rd[0])
             continue
+        pre = _prefork(c, rd, mode, names[s]) if script.get('fork_rev') else None     # downstream forks created before their upstream fork
         fork = Node(c, names[s])
         Line(c, (pn, ppin), (fork, 0))
-        _fan(c, fork, rd, mode, names[s])
+        _fan(c, fork, rd, mode, names[s], pre)
     # ---- io list
     if style == 'v':
         ios = in_nodes + out_nodes
@@ -200,22 +201,47 @@ def build(script):
     else:
         ios = in_nodes + [sig_fork[s] for s in out_sigs]
     for n in ios: c.io_nodes.append(n)
+    if script.get('node_shuffle'): b.circuit = reorder(c, script['node_shuffle'])
     b.sig_producer = prod
     b.sig_names = names
     return b
 
 
-def _fan(c, fork, rd, mode, name):
+def reorder(c, seed, ports_first=False):
+    """The same circuit with its nodes created in another order (a parser is free to create nodes in any order):
+    node indices, the insertion order of the cell/fork tables and tie-breaks of traversals change, nothing else."""
+    import random
+    nodes = list(c.nodes)
+    random.Random(seed).shuffle(nodes)
+    if ports_first:
+        io = {id(n) for n in c.io_nodes}
+        nodes = [n for n in nodes if id(n) in io] + [n for n in nodes if id(n) not in io]
+    c2 = Circuit(c.name)
+    new = {}
+    for n in nodes: new[id(n)] = Node(c2, n.name, n.kind)
+    for l in c.lines:
+        Line(c2, (new[id(l.driver)], l.driver_pin), (new[id(l.reader)], l.reader_pin))
+    for n in c.io_nodes: c2.io_nodes.append(new[id(n)])
+    return c2
+
+
+def _prefork(c, rd, mode, name):
+    if mode == 2: return [Node(c, f'{name}~b{k}') for k in range(len(rd))]
+    if mode == 3 and len(rd) >= 2: return [Node(c, f'{name}~{part}') for part in ('l', 'r')]
+    return None
+
+
+def _fan(c, fork, rd, mode, name, pre=None):
     if not rd: return
     if mode == 2:      # a branch fork per reader (as verilog.parse(branchforks=True))
         for k, r in enumerate(rd):
-            bf = Node(c, f'{name}~b{k}')
+            bf = pre[k] if pre else Node(c, f'{name}~b{k}')
             Line(c, fork, (bf, 0))
             Line(c, bf, r)
     elif mode == 3 and len(rd) >= 2:   # fork tree
         h = len(rd) // 2
-        for part, grp in (('l', rd[:h]), ('r', rd[h:])):
-            sf = Node(c, f'{name}~{part}')
+        for j, (part, grp) in enumerate((('l', rd[:h]), ('r', rd[h:]))):
+            sf = pre[j] if pre else Node(c, f'{name}~{part}')
             Line(c, fork, (sf, 0))
             for r in grp: Line(c, sf, r)
     else:
@@ -243,6 +269,8 @@ def shrink_script(script):
     if script.get('floating'): yield dict(script, floating=script['floating'] - 1)
     if script['fmode'] != [0]: yield dict(script, fmode=[0])
     if script.get('io_mix'): yield dict(script, io_mix=False)
+    if script.get('fork_rev'): yield dict(script, fork_rev=False)
+    if script.get('node_shuffle'): yield dict(script, node_shuffle=0)
     for j, (kind, srcs, om) in enumerate(g):
         if om != 0: yield dict(script, gates=g[:j] + [[kind, srcs, 0]] + g[j + 1:])
         base = kind.lower()
